@@ -1,4 +1,5 @@
 """Per-property assembly: which units run, with which meta data."""
+import os
 import time
 
 import units_incrate
@@ -47,7 +48,10 @@ def c03(tier, seed):
             "big-endian branches; 32-bit usize fast path",
         ],
     }
-    return finish("C03", tier, seed, obs, meta, t0, replay_fn=_replay("C03"))
+    sens, sob = _sens("C03", tier)
+    if sens is not None:
+        meta["sensitivity"] = sens
+    return finish("C03", tier, seed, obs + sob, meta, t0, replay_fn=_replay("C03"))
 
 
 def c14(tier, seed):
@@ -76,7 +80,10 @@ def c14(tier, seed):
             "edition validation inside Builder::generate (lib.rs)",
         ],
     }
-    return finish("C14", tier, seed, obs, meta, t0, replay_fn=_replay("C14"))
+    sens, sob = _sens("C14", tier)
+    if sens is not None:
+        meta["sensitivity"] = sens
+    return finish("C14", tier, seed, obs + sob, meta, t0, replay_fn=_replay("C14"))
 
 
 LAYOUT_TRUST = [
@@ -89,6 +96,20 @@ LAYOUT_TRUST = [
 LAYOUT_FNS = ["bindgen/codegen/struct_layout.rs: align_to, StructLayoutTracker::{padding_bytes, align_to_latest_field, padding_field, saw_vtable, saw_base, saw_bitfield_unit, saw_field_with_layout, add_tail_padding, pad_struct, requires_explicit_align}",
               "bindgen/ir/layout.rs: Layout::{known_type_for_size, new, for_size_internal, for_size}",
               "bindgen/codegen/helpers.rs: blob, integer_type, bitfield_unit"]
+
+
+def _sens(prop, tier):
+    """thorough tier only: sensitivity self-test on scratch copies (engine/sensitivity.py)"""
+    if tier != "thorough" or os.environ.get("VERIF_REPO"):
+        return None, []
+    import sensitivity
+    from core import CANARY, DISCHARGED, FAILED, Ob
+    res = sensitivity.run(prop)
+    missed = [r["id"] for r in res if r["result"] == "MISSED"]
+    ob = Ob("%s::sensitivity_selftest" % prop, CANARY, FAILED if missed else DISCHARGED, "selftest",
+            detail=("seeded edits no longer detected: " + ", ".join(missed)) if missed else "",
+            extra={"edits_tried": len(res), "detected": sum(1 for r in res if r["result"].startswith("detected"))})
+    return res, [ob]
 
 
 def _replay(prop):
@@ -117,7 +138,10 @@ def _verus_prop(prop, tier, seed, unit_filters, meta_extra, extra_obs=None):
     meta = {"checker_cmd": " ; ".join(cmds), "extraction": logs}
     meta.update(meta_extra)
     meta["trusted_base"] = GLOBAL_TRUST + meta.get("trusted_base", [])
-    return finish(prop, tier, seed, obs, meta, t0, replay_fn=_replay(prop))
+    sens, sob = _sens(prop, tier)
+    if sens is not None:
+        meta["sensitivity"] = sens
+    return finish(prop, tier, seed, obs + sob, meta, t0, replay_fn=_replay(prop))
 
 
 def c02(tier, seed):
@@ -223,7 +247,7 @@ def c07(tier, seed):
 def c08(tier, seed):
     def extra():
         return units_incrate.run_spec(units_incrate.derive_tables_spec())
-    return _verus_prop("C08", tier, seed, [("derive_gate", None, None), ("derives", None, None), ("constrain", None, None)], {
+    return _verus_prop("C08", tier, seed, [("derive_gate", None, None), ("derives", None, None), ("constrain", None, None), ("fn_abi", r"function_pointers_can_derive", None)], {
         "trusted_base": INCRATE_TRUST + ["env/derive_gate_env.rs: uninterpreted options and analysis lookups; generic impl<T> instantiated at T = ItemId",
                                         "rule-table oracle written from the property statement (kani_incrate/derive_tables.rs)"],
         "functions_under_contract": ["bindgen/ir/context.rs: the eight impl<T> CanDerive{Debug,Default,Copy,Hash,PartialOrd,PartialEq,Eq,Ord} for T bodies",
@@ -233,7 +257,7 @@ def c08(tier, seed):
                                      "bindgen/ir/function.rs: FunctionSig::function_pointers_can_derive (bounded)"],
         "assumptions": ["gating: result == option enabled && analysis lookup (&& no float for Eq/Ord), both directions ('never when', 'never withheld')",
                         "rule tables complete over all 5 traits x every TypeKind constructible without libclang (17 kinds); UnresolvedTypeRef, Comp, Function, TemplateInstantiation, ObjCInterface kinds are not constructible and are skipped"],
-        "bounds": "fn-pointer rule: argument counts 0, 12, 13 (around the 12-argument limit) x all ABIs x all traits",
+        "bounds": "the Kani twins of the fn-pointer rule enumerate argument counts 0, 12, 13 only (bounded, not counted); the rule itself is proved for every argument count by Verus (fn_abi::FunctionSig::function_pointers_can_derive, constrain::DeriveTrait::can_derive_fnptr)",
         "unverified": ["CannotDerive::constrain_join (closure over Trace: which members are joined), CannotDerive::constrain (large-alignment override, insert), the IR reads themselves; hand-written impl bodies (impl_debug.rs, impl_partialeq.rs, Default via write_bytes)"],
     }, extra_obs=extra)
 
